@@ -12,7 +12,11 @@ RULE = ("names = absolute prefix x up to N segments over the adversarial alphabe
         "rejected only by the containment test); percent-encoded names: every sequence of <= 2 (thorough 3) segments over "
         "{%2e%2e, %2e, %2E%2E, .%2e, a%2fb, %2f, %5c, ..%2f.., %252e%252e, %c0%ae%c0%ae, %00, .., a} x both separators x all "
         "prefixes x all roots, and the same shapes through the router's ':path*' capture; process history: relative and "
-        "absolute roots asked again and again while the working directory changes between consecutive calls")
+        "absolute roots asked again and again while the working directory changes between consecutive calls; IDENTIFICATION names: "
+        "segments that a canonicalisation would turn into '..', '.', a separator or another name (full-width / one-dot-leader dots, "
+        "division / full-width slashes, zero-width and blank padding of '..', case variants, NFC/NFD/NFKC variants, ligatures, "
+        "trailing dot / blank, percent forms) alone, in pairs, under absolute prefixes, plus every identlib.text_variants of four "
+        "sample names; every accepted result must be THE joined path (root components + the name's components unchanged)")
 ASSUMPTIONS = ["os.getcwd() returns an absolute path (premise of the theorems)",
                "no symbolic links are considered: containment is lexical (component lists), as in the property statement"]
 TRUSTED = ["CPython posixpath.join/normpath/abspath are modelled (PathJoin.v) and compared differentially, not verified"]
@@ -99,6 +103,47 @@ def gen_pct_names(nseg):
     return out
 
 
+def joined(cwd, root, name):
+    """the component list of the normalised join of root and name, written out independently: the components of the
+    absolute root (dot segments resolved) followed by the non-empty components of the name AS THEY ARE (an absolute name
+    starts again from '/')"""
+    r = root.replace("\\", "/")
+    if not r.startswith("/"):
+        r = cwd.rstrip("/") + "/" + r
+    st = []
+    for c in r.split("/"):
+        if c in ("", "."):
+            continue
+        if c == "..":
+            if st:
+                st.pop()
+            continue
+        st.append(c)
+    n = name.replace("\\", "/")
+    return ([] if n.startswith("/") else st) + [c for c in n.split("/") if c]
+
+
+# names an implementation might IDENTIFY with another name (or with '.', '..', a separator): each is a name of its own
+IDENT_SEGS = ["\uff0e\uff0e", "\u2025", "\u2024\u2024", ".\u200b.", "..\u200b", "\ufeff..", ".. ", " ..", "..\t", "..\x00", "...", "..;",
+              "\u2215", "\uff0f", "\u2044", "\u29f8", "\uff3c", "a\u2215b", "..\uff0fetc", "\uff0e\uff0e\uff0fetc", "\u2025\u2215x",
+              "A", "a", "ETC", "Etc", "etc", "etc.", "etc ", "caf\u00e9", "cafe\u0301", "CAF\u00c9", "\ufb01le", "file", "FILE", "\uff41",
+              "a\u00ad", "a\u200d", "\u0130", "i\u0307", "stra\u00dfe", "strasse", "%41", "%c0%ae%c0%ae", "~", "a:b", "a::$DATA", "CON", "a.", "a "]
+
+
+def gen_ident_names(r, thorough):
+    from harness import identlib
+    out = []
+    for k in (1, 2):
+        for segs in itertools.product(IDENT_SEGS, repeat=k) if k == 1 else [tuple(r.choice(IDENT_SEGS + ["..", ".", "", "a"]) for _ in range(2))
+                                                                             for _ in range(4000 if thorough else 700)]:
+            for sep in ("/", "\\"):
+                out.append(sep.join(segs))
+    for base in ("caf\u00e9/\ufb01le.txt", "Etc/Passwd", "a b/\u212bngstrom.TXT", "stra\u00dfe/\u0130x/i.png"):
+        out.append(base)
+        out += [t for _, t in identlib.text_variants(base)]
+    return list(dict.fromkeys(out))
+
+
 def rand_str(r, n):
     alpha = ["/", "\\", ".", "..", "a", "b", " ", "\u00e9", "\u4e2d", "\U0001f600", "~", ":", "\t", "%2e", "\x00", "\x7f", "-"]
     return "".join(r.choice(alpha) for _ in range(n))
@@ -165,16 +210,19 @@ def run(run):
     run.count("percent_encoded_names", len(pct))
     run.exhaustive.append("percent-encoded names: %d prefixes x all sequences of <= %d segments over %d symbols x 2 separators = %d "
                           "names, each x %d roots" % (len(PREFIXES), 3 if run.thorough() else 2, len(PCT_SEGS), len(pct), len(ROOTS)))
+    ident = [pre + n for pre in ("", "/", "/srv/www/", "\\") for n in gen_ident_names(r, run.thorough())]
+    run.count("identification_names", len(ident))
     nviol = 0
+    njoin = 0
     for ci, cw in enumerate(cwds):
         # the full sweep under two real cwds; a sample under the others
         if ci == 2 or (run.thorough() and ci == 0):
-            nm = full + junk + captured + pct
+            nm = full + junk + captured + pct + ident
         else:
-            nm = r.sample(full, min(len(full), 3000)) + junk[:500] + captured[:200]
+            nm = r.sample(full, min(len(full), 3000)) + junk[:500] + captured[:200] + r.sample(ident, 300)
         roots = ROOTS if ci in (0, 2) else r.sample(ROOTS, 6)
         if ci == 0 and not run.thorough():
-            nm = r.sample(full, min(len(full), 3000)) + junk[:500] + captured[:200]
+            nm = r.sample(full, min(len(full), 3000)) + junk[:500] + captured[:200] + r.sample(ident, 300)
         cases = [(cw.path, root, n) for root in roots for n in nm]
         with cw:
             impl = [impl_pjs(root, n) for (_, root, n) in cases]
@@ -197,6 +245,14 @@ def run(run):
                     if nviol <= 5:
                         run.oracle_violation("escapes-root", {"cwd": c, "root": root, "name": n, "result": p,
                                                               "synthetic_cwd": cw.synthetic}, "path_join_safe")
+                # 'returns a normalized path': THE path of root joined with this name - its components are the root's
+                # followed by the name's, unchanged (no case folding, no Unicode normalisation, nothing dropped or decoded)
+                want = joined(c, root, n)
+                if [x for x in p.split("/") if x] != want:
+                    njoin += 1
+                    if njoin <= 5:
+                        run.oracle_violation("result-is-not-the-joined-path", {"cwd": c, "root": root, "name": n, "result": p,
+                                                                               "expected_components": want}, "path_join_safe")
             else:
                 run.count("rejected_err%d" % res[1])
                 if res[1] != 1:
@@ -230,6 +286,7 @@ def run(run):
             run.oracle_violation("unexpected-exception", {"cwd": c, "root": root, "name": n, "err": res[1]}, "path_join_safe")
     run.count("history_calls", len(hist))
     run.count("containment_violations", nviol)
+    run.count("join_violations", njoin)
     # the classic witnesses, always evaluated
     for root, n in [("/srv/www", "/etc/passwd"), ("/srv/www", "//etc/passwd"), ("/srv/www", "\\etc\\passwd"),
                     ("/srv/www", "/srv/wwwx/secret"), ("rel", "/etc/passwd")]:
